@@ -31,7 +31,7 @@ LEVEL_TEXT = ('For every generated history all kill points after the first flush
 LEVEL_NOTE = ('fault model = process kill before/after each write/truncate/flush/close call on the .npy file (tearing inside one system call or '
               'memory copy, and power loss, are outside the stated fault model); trusts numpy.load as the definition of "standard .npy file"')
 RULE = ('cases = random history (first op append; 5-14 ops of append / overwrite / delete-last / clear / read / flush / close+reopen / '
-        'pickle+unpickle / pool save+open) over NpyArray | NpyStore | ArrayPool x dtype {f8,f4,i8,i4,i1,u1,bool,c16} x row shape {(),(k,),(k,l)} x '
+        'pickle+unpickle / pool save+open / persist-now-restore-later (the writer went away without saving again) / hostile motif unflushed-append+read+overwrite) over NpyArray | NpyStore | ArrayPool x dtype {f8,f4,i8,i4,i1,u1,bool,c16} x row shape {(),(k,),(k,l)} x '
         'batch size 1-5, plus all its kill points; distinct = hash of the history; non-trivial = history with an overwrite or delete after a '
         'flush and at least one kill point after the first flush')
 ASSUMPTIONS = ['children are forked from the worker and re-run the whole history in a fresh directory up to the kill point',
@@ -41,12 +41,12 @@ CONFIG = {
     'quick': {'shards': 16, 'cases': 5, 'timeout': 600, 'floor': 20},
     'thorough': {'shards': 32, 'cases': 60, 'timeout': 3000, 'floor': 500},
 }
-REQUIRED = ['kill_points_executed', 'kill_states_loaded', 'model_comparisons', 'npload_checks', 'kind_array', 'kind_store', 'kind_pool',
+REQUIRED = ['op_snapshot', 'op_restore', 'op_read', 'kill_points_executed', 'kill_states_loaded', 'model_comparisons', 'npload_checks', 'kind_array', 'kind_store', 'kind_pool',
             'op_append', 'op_overwrite', 'op_delete', 'op_flush', 'op_reopen', 'op_pickle', 'kills_during_truncate', 'kills_during_write']
 
 DTYPES = ['<f8', '<f4', '<i8', '<i4', '|i1', '|u1', '|b1', '<c16']
 ROWS = [[], [2], [3], [2, 2], [1, 3]]
-FLUSHING = ('flush', 'reopen', 'pickle', 'save', 'close')
+FLUSHING = ('flush', 'reopen', 'pickle', 'save', 'close', 'snapshot', 'restore')
 
 
 # ------------------------------------------------------------------ file proxy / kill injector
@@ -107,33 +107,62 @@ def gen_history(rng):
     h = {'kind': kind, 'dtype': str(rng.choice(DTYPES)), 'row': [int(x) for x in ROWS[int(rng.integers(len(ROWS)))]],
          'bs': int(rng.integers(1, 6)), 'ops': []}
     n = int(rng.integers(5, 15))
-    nb, flushed = 0, False
+    st = {'nb': 0, 'flushed': False, 'snap': None, 'min_since_snap': 0}
     ops = h['ops']
-    for i in range(n):
-        choices = ['append'] * 3 + (['overwrite', 'delete'] * 2 + ['read'] if nb > 0 else []) + ['flush'] * 2 + ['reopen', 'pickle'] \
-            + (['clear'] if nb > 0 and rng.random() < 0.3 else []) + (['save'] if kind == 'pool' else [])
-        if i == 0:
-            choices = ['append']
-        if i == 2 and not flushed:
-            choices = ['flush']
-        op = str(rng.choice(choices))
+    use_restore = kind in ('store', 'pool') and rng.random() < 0.25
+
+    def emit(op):
         seed = int(rng.integers(0, 10 ** 6))
+        nb = st['nb']
         if op == 'append':
             ops.append(['append', nb, seed])
-            nb += 1
-        elif op == 'overwrite':
+            st['nb'] += 1
+        elif op == 'overwrite' and nb > 0:
             ops.append(['overwrite', int(rng.integers(nb)), seed])
-        elif op == 'read':
+        elif op == 'read' and nb > 0:
             ops.append(['read', int(rng.integers(nb))])
-        elif op == 'delete':
+        elif op == 'delete' and nb > 0:
             ops.append(['delete', nb - 1])
-            nb -= 1
-        elif op == 'clear':
+            st['nb'] -= 1
+        elif op == 'clear' and nb > 0:
             ops.append(['clear'])
-            nb = 0
-        else:
+            st['nb'] = 0
+        elif op == 'snapshot':
+            ops.append(['snapshot'])
+            st['snap'] = st['nb']
+            st['min_since_snap'] = st['nb']
+            st['flushed'] = True
+        elif op == 'restore':
+            ops.append(['restore'])
+            st['nb'] = st['snap']
+        elif op in ('flush', 'reopen', 'pickle', 'save'):
             ops.append([op])
-            flushed = flushed or op in FLUSHING
+            st['flushed'] = True
+        if st['snap'] is not None:
+            st['min_since_snap'] = min(st['min_since_snap'], st['nb'])
+
+    i = 0
+    while i < n:
+        nb = st['nb']
+        if i == 0:
+            emit('append')
+        elif i == 2 and not st['flushed']:
+            emit('flush')
+        elif st['flushed'] and nb > 0 and rng.random() < 0.2:
+            # hostile motif: unflushed append, a read (re-creates the memory map), in-place overwrite of an older batch
+            emit('append')
+            emit('read')
+            emit('overwrite')
+            i += 2
+        else:
+            choices = ['append'] * 3 + (['overwrite', 'delete'] * 2 + ['read'] * 2 if nb > 0 else []) + ['flush'] * 2 + ['reopen', 'pickle'] \
+                + (['clear'] if nb > 0 and rng.random() < 0.3 else []) + (['save'] if kind == 'pool' else [])
+            if use_restore and nb > 0 and st['snap'] is None:
+                choices += ['snapshot'] * 3
+            if use_restore and st['snap'] is not None and st['min_since_snap'] >= st['snap'] and st['nb'] > st['snap']:
+                choices += ['restore'] * 4
+            emit(str(rng.choice(choices)))
+        i += 1
     ops.append(['close'])
     return h
 
@@ -183,6 +212,30 @@ class Driver:
     def apply(self, op):
         h, bs, k = self.h, self.h['bs'], op[0]
         o = self.obj
+        if k == 'snapshot':
+            # persist the store object now (pickle / pool.save), keep the bytes for a later restore
+            if self.kind == 'pool':
+                o.save()
+                self.snap = {n: open(os.path.join(self.d, 'p', n + '.pkl'), 'rb').read() for n in NODES}
+            else:
+                self.snap = pickle.dumps(o)
+            return
+        if k == 'restore':
+            # the writer went away without saving again: continue from the object persisted earlier
+            o.flush()
+            if self.kind == 'pool':
+                cwd = os.getcwd()
+                os.chdir(os.path.join(self.d, 'p'))
+                try:
+                    for n in NODES:
+                        o.stores[n].close()
+                        o.stores[n] = pickle.loads(self.snap[n])
+                finally:
+                    os.chdir(cwd)
+            else:
+                o.close()
+                self.obj = pickle.loads(self.snap)
+            return
         if self.kind == 'array':
             if k == 'append':
                 o.append(mkbatch(h, op[2]))
@@ -275,9 +328,16 @@ class Driver:
         return s is not None and j in s
 
 
-def apply_model(h, model, op):
+def apply_model(h, model, op, state=None):
     """model: {node: [batches]}"""
     k = op[0]
+    if state is not None:
+        if k == 'snapshot':
+            state['snap_nb'] = len(next(iter(model.values())))
+        if k == 'restore':
+            for i in model:
+                del model[i][state['snap_nb']:]
+            state['restored'] = True
     for i in model:
         if k == 'append':
             model[i].append(mkbatch(h, op[2], i))
@@ -299,6 +359,15 @@ def _same(a, b):
     return a.dtype == b.dtype and a.shape == b.shape and a.tobytes() == b.tobytes()
 
 
+def _same_or_prefix(L, exp, restored, bs):
+    """After a store object persisted earlier was restored over a file that had grown meanwhile, the file may hold
+    further (batch-aligned) rows behind the batches the store reports; they are not part of the logical content."""
+    if not restored:
+        return _same(L, exp)
+    return L.dtype == exp.dtype and L.shape[1:] == exp.shape[1:] and len(L) >= len(exp) and len(L) % bs == 0 \
+        and L[:len(exp)].tobytes() == exp.tobytes()
+
+
 def counting_run(ctx, h, d):
     """Monitor A. Returns log = per op (count_after, {node: content bytes-array}, is_flush) and K."""
     CTL.count, CTL.kill_at, CTL.kinds = 0, None, []
@@ -306,13 +375,14 @@ def counting_run(ctx, h, d):
     nodes = list(range(len(NODES))) if h['kind'] == 'pool' else [0]
     model = {i: [] for i in nodes}
     log = []
+    mstate = {}
     for oi, op in enumerate(h['ops']):
         begin = CTL.count
         drv.apply(op)
-        apply_model(h, model, op)
+        apply_model(h, model, op, mstate)
         ctx.event('op_' + op[0])
         log.append({'begin': begin, 'end': CTL.count, 'content': {i: _concat(h, model[i]) for i in nodes}, 'flush': op[0] in FLUSHING,
-                    'nb': {i: len(model[i]) for i in nodes}})
+                    'nb': {i: len(model[i]) for i in nodes}, 'restored': bool(mstate.get('restored'))})
         if op[0] == 'close':
             break
         where = 'after op %d %s' % (oi, op)
@@ -339,7 +409,7 @@ def counting_run(ctx, h, d):
                     raise Violation('npload', '%s: numpy.load fails after %s: %s' % (where, op[0], e))
                 ctx.event('npload_checks')
                 exp = _concat(h, model[idx])
-                if not _same(L, exp):
+                if not _same_or_prefix(L, exp, mstate.get('restored'), h['bs']):
                     raise Violation('npload-content', '%s: numpy.load(file) differs from the concatenated batches after %s' % (where, op[0]),
                                     {'loaded_shape': L.shape, 'expected_shape': exp.shape})
     # final close check
@@ -347,7 +417,7 @@ def counting_run(ctx, h, d):
         idx = i if h['kind'] != 'pool' else NODES.index(i)
         L = np.load(f)
         ctx.event('npload_checks')
-        if not _same(L, _concat(h, model[idx])):
+        if not _same_or_prefix(L, _concat(h, model[idx]), mstate.get('restored'), h['bs']):
             raise Violation('npload-content', 'after close: numpy.load(file) differs from the concatenated batches')
     return log, CTL.count, list(CTL.kinds)
 
@@ -409,7 +479,7 @@ def run_case(ctx, h):
                         raise Violation('unloadable-after-kill', 'file does not load after a kill at %s low-level op %d (%s) during %s: %s' % (
                             phase, k, kinds[k - 1], h['ops'][inprog], str(e)[:200]), wit)
                     ctx.event('kill_states_loaded')
-                    if not any(_same(L, a) for a in adm):
+                    if not any(_same_or_prefix(L, a, log[inprog]['restored'] or h['ops'][inprog][0] == 'restore', h['bs']) for a in adm):
                         raise Violation('inadmissible-state-after-kill',
                                         'file content after the kill is not the logical content at any instant between the last completed flush and the kill '
                                         '(loaded %d rows; admissible row counts %s)' % (len(L), [len(a) for a in adm]), wit)
